@@ -163,7 +163,7 @@ def extract_vm(repo, trace, which):
     vt = tuple_struct(src, 'VmTrace').replace('struct VmTrace(Vec<Choice>)', 'pub struct VmTrace(pub Vec<Choice>)')
     a, b = rsx.impl_block(src, r'^impl VmTrace\b', 'impl VmTrace')
     fns = []
-    for name in ['fill', 'resize']:
+    for name in ['fill', 'resize', 'as_slice']:
         i, j, k = rsx.find_fn(src, name, a, b)
         fns.append(src[rsx.line_start(src, i):k])
         trace.items.append((VM_RS, 'VmTrace::' + name))
